@@ -122,6 +122,9 @@ def execute(task, package_dir):
         summary["events"] = reference.events
         summary["kinds"] = dict(reference.kinds)
         summary["final_time"] = reference.final_time
+        if reference.status == "stopped_by_shortage_error":
+            summary["status"] = "invalid"
+            return summary
         if reference.status in ("invalid", "harness_error"):
             summary["status"] = reference.status
             summary["error"] = reference.error
